@@ -36,16 +36,30 @@ def gen_case(rng, form, kind):
     ktype, kpool = rng.choice(KEY_POOLS)
     ntype, npool = rng.choice(NVAL_POOLS)
     etype, epool = rng.choice(EVAL_POOLS)
+    # value expressions with side effects (tick() returns 1, 2, 3, ... per invocation): in the edge values
+    # or in the node values of an invocation, never both (the order between the two kinds is not specified)
+    counter = rng.choice(["E", "N", None, None, None])
+    if counter == "E" and form in (3, 4):
+        etype, epool = "i64", None
+    elif counter == "N" and form in (2, 4):
+        ntype, npool = "i64", None
+    ticks = [0]
+
+    def pick(pool):
+        if pool is None:
+            ticks[0] += 1
+            return ("tick()", str(ticks[0]))
+        return rng.choice(pool)
     nn = {"single": 1, "big": min(len(kpool), 6)}.get(kind, rng.randint(1, min(4, len(kpool))))
     keys = rng.sample(kpool, nn)
     nodes = []
     for k in keys:
-        nv = rng.choice(npool)
         ne = 0 if kind in ("empty_lists", "no_brackets") else rng.randint(0, 4 if kind == "big" else 3)
         edges = []
         for _ in range(ne):
             t = rng.choice(keys)  # forward references, self-loops and repeats all occur
-            edges.append((t, rng.choice(epool)))
+            edges.append((t, pick(epool)))
+        nv = pick(npool)
         nodes.append({"key": k, "nval": nv, "edges": edges, "brackets": kind != "no_brackets" and (ne > 0 or rng.random() < 0.7)})
     bad = None
     if kind == "unknown_key":
@@ -54,7 +68,7 @@ def gen_case(rng, form, kind):
             return None
         bad = rng.choice(outside)
         victim = rng.choice(nodes)
-        victim["edges"].insert(rng.randint(0, len(victim["edges"])), (bad, rng.choice(epool)))
+        victim["edges"].insert(rng.randint(0, len(victim["edges"])), (bad, rng.choice(epool) if epool else ("0", "0")))
         victim["brackets"] = True
     return {"form": form, "ktype": ktype, "ntype": ntype, "etype": etype, "nodes": nodes, "bad": bad, "kind": kind}
 
@@ -108,6 +122,7 @@ def gen_bin(flavour, form, cases):
     for i, c in enumerate(cases):
         lines.append('    println!("CASE %d");' % i)
         lines.append("    match std::panic::catch_unwind(|| {")
+        lines.append("        reset_ticks();")
         lines.append("        let g = %s;" % invocation(macro, c).replace("\n", "\n    "))
         lines.append("        (Dump::dump(&g), Dump::type_name(&g).to_string())")
         lines.append("    }) {")
@@ -197,7 +212,7 @@ def run(ctx, spec, tier, seed, t0):
                        env=ctx["env_offline"](), stdout=subprocess.PIPE, stderr=subprocess.PIPE, text=True)
     counters = {"evaluations": 0, "invocations_compared": 0, "panicking_invocations": 0, "programs_generated": len(plan) + 5,
                 "invocations_with_selfloop": 0, "invocations_with_repeated_edge": 0, "invocations_with_forward_reference": 0,
-                "invocations_without_brackets": 0, "helper_programs": 0}
+                "invocations_without_brackets": 0, "helper_programs": 0, "invocations_with_side_effecting_values": 0}
     violations, problems, samples, types_seen = [], [], [], {}
     distinct = set()
     tgt = os.path.join(HARNESS, "target", "debug")
@@ -228,6 +243,8 @@ def run(ctx, spec, tier, seed, t0):
             inv = invocation(fl, c)
             distinct.add(hash((fl, inv)))
             keys_in_order = [n["key"] for n in c["nodes"]]
+            if "tick()" in inv:
+                counters["invocations_with_side_effecting_values"] += 1
             for ni, n in enumerate(c["nodes"]):
                 ts = [t for t, _ in n["edges"]]
                 if n["key"] in ts:
